@@ -14,7 +14,7 @@ import (
 func init() {
 	register(&propDef{
 		ID:          "C01",
-		Explanation: "Decides, for ALL sites in the current source: every dynamic string that reaches an HTML text/attribute sink — in the runtime library (SSA classification of every written operand in packages templ, templ/runtime, templ/safehtml) and in every statement the generator can emit (GEM: emission paths of generator.go parsed as Go) — passes through html.EscapeString, or is a constant / safe alphabet / a listed trusted field; attribute-value sinks sit between matching literal quotes; templ.EscapeString is html.EscapeString; R6 the output buffer type hands every byte to its bufio.Writer and never writes to the underlying writer without flushing first (its forwarding methods are exempt from R1, so this is what keeps escaped text in the position it was escaped for). R7 in the generator, text computed from a Go expression (Expression.Value) never reaches a literal-markup sink (a fabricated parser.Text, or the literal writer) — it may only be copied into the program as code. NOT decided: an HTML5 tokenizer's behaviour on the output (trusted base: html.EscapeString escapes & < > \" '), attribute names arriving as spread-map keys, user-constructed ComponentScript values.",
+		Explanation: "Decides, for ALL sites in the current source: every dynamic string that reaches an HTML text/attribute sink — in the runtime library (SSA classification of every written operand in packages templ, templ/runtime, templ/safehtml) and in every statement the generator can emit (GEM: emission paths of generator.go parsed as Go) — passes through html.EscapeString, or is a constant / safe alphabet / a listed trusted field; attribute-value sinks sit between matching literal quotes; templ.EscapeString is html.EscapeString; R6 the output buffer type hands every byte to its bufio.Writer and never writes to the underlying writer without flushing first (its forwarding methods are exempt from R1, so this is what keeps escaped text in the position it was escaped for). R7 in the generator, text computed from a Go expression (Expression.Value) never reaches a literal-markup sink (a fabricated parser.Text, or the literal writer) — it may only be copied into the program as code. NOT decided: an HTML5 tokenizer's behaviour on the output (trusted base: html.EscapeString escapes & < > \" '), attribute names arriving as spread-map keys, user-constructed ComponentScript values. R8 a loop that writes the elements of a sequence one after the other is left early only with the error of a write (an empty string is a write of 0 bytes).",
 		Assumptions: []string{"html.EscapeString escapes & < > \" ' and leaves everything else unchanged", "generated code is what generator.go emits (committed _templ.go files are covered separately in the thorough tier)"},
 		Trusted:     []string{"go/types", "x/tools go/packages, go/ssa", "html.EscapeString"},
 		Run:         runC01,
@@ -69,6 +69,9 @@ func leafAcceptableHTML(l leaf, fnName string) (bool, string) {
 		}
 		return true, ""
 	case "PARAM":
+		if l.Info == modPath+".Raw#html" {
+			return true, "" // templ.Raw: documented unsafe API, the caller vouches for the HTML — wherever the function hands it on to
+		}
 		return false, "parameter " + l.Info + " is written without the HTML escaper"
 	}
 	return false, l.String() + " is written without the HTML escaper"
@@ -134,6 +137,7 @@ func runC01(c *Ctx) {
 	escaperIdentity(c, f, "C01.R4")
 	bufferInOrder(c, "C01.R6")
 	goTextNeverLiteralMarkup(c, "C01.R7")
+	writeLoopsLeaveOnlyOnError(c, "C01.R8")
 	if c.thorough() {
 		generatedSinks(c, "C01.R5")
 	}
